@@ -262,4 +262,183 @@ theorem parseCharacterString_render (s : PString) (hwf : WFString s) (rest : Lis
       .ok (stringOctets s, ⟨rest, line + stringLines s, paren⟩) :=
   parseString_render 255 _ _ s hwf.forms hwf.len hwf.ne rest hrest line paren
 
+/-! ### IPv6 addresses: eight hexadecimal groups -/
+
+def hexVal (c : UInt8) : Nat := if 48 ≤ c.toNat ∧ c.toNat ≤ 57 then c.toNat - 48 else c.toNat - 87
+
+theorem hexDigit_facts : ∀ n, n < 16 →
+    toDigit 16 (hexDigitOctet n) = some n ∧ plainOctet (hexDigitOctet n) = true ∧ hexDigitOctet n ≠ 46 ∧
+    hexDigitOctet n ≠ 92 := by decide +kernel
+
+theorem toDigit16_ne_colon : toDigit 16 58 = none ∧ toDigit 10 58 = none := by decide
+
+theorem hexText_digits (n : Nat) : ∀ c ∈ hexText n, ∃ d, d < 16 ∧ c = hexDigitOctet d := by
+  fun_induction hexText n
+  case case1 n h => intro c hc; simp at hc; exact ⟨n, h, hc⟩
+  case case2 n h ih =>
+    intro c hc
+    simp at hc
+    rcases hc with hc | hc
+    · exact ih c hc
+    · exact ⟨n % 16, by omega, hc⟩
+
+theorem hexText_ne_nil (n : Nat) : hexText n ≠ [] := by
+  rw [hexText]; split <;> simp
+
+theorem spanDigits16_append (ds rest : List UInt8) (hds : ∀ c ∈ ds, ∃ d, d < 16 ∧ c = hexDigitOctet d)
+    (hrest : ∀ c t, rest = c :: t → toDigit 16 c = none) :
+    ∃ vs, spanDigits 16 (ds ++ rest) = (vs, rest) ∧ vs.length = ds.length ∧
+      ∀ acc, vs.foldl (fun a d => a * 16 + d) acc =
+        ds.foldl (fun a c => a * 16 + (match toDigit 16 c with | some d => d | none => 0)) acc := by
+  induction ds with
+  | nil =>
+    refine ⟨[], ?_, rfl, fun _ => rfl⟩
+    cases rest with
+    | nil => rfl
+    | cons c t => simp [spanDigits, hrest c t rfl]
+  | cons c ds ih =>
+    obtain ⟨d, hd, rfl⟩ := hds c (by simp)
+    obtain ⟨vs, h1, h2, h3⟩ := ih (fun x hx => hds x (by simp [hx]))
+    refine ⟨d :: vs, ?_, by simp [h2], ?_⟩
+    · simp [spanDigits, (hexDigit_facts d hd).1, h1]
+    · intro acc
+      simp [(hexDigit_facts d hd).1, h3]
+
+theorem hexText_fold (n : Nat) (acc : Nat) :
+    (hexText n).foldl (fun a c => a * 16 + (match toDigit 16 c with | some d => d | none => 0)) acc =
+      acc * 16 ^ (hexText n).length + n := by
+  fun_induction hexText n generalizing acc
+  case case1 n h => simp [(hexDigit_facts n h).1]
+  case case2 n h ih =>
+    rw [List.foldl_append, ih]
+    simp only [List.foldl_cons, List.foldl_nil, (hexDigit_facts (n % 16) (by omega)).1, List.length_append,
+      List.length_cons, List.length_nil]
+    rw [Nat.pow_succ, ← Nat.mul_assoc]
+    generalize acc * 16 ^ (hexText (n / 16)).length = X
+    have := Nat.div_add_mod n 16
+    rw [Nat.add_mul, Nat.add_assoc, Nat.mul_comm (n / 16) 16, this]
+
+theorem hexText_length (n : Nat) (k : Nat) (h : n < 16 ^ (k + 1)) : (hexText n).length ≤ k + 1 := by
+  induction k generalizing n with
+  | zero => rw [hexText]; simp at h; simp [h]
+  | succ k ih =>
+    rw [hexText]
+    split
+    · simp
+    · have : n / 16 < 16 ^ (k + 1) := by
+        rw [Nat.div_lt_iff_lt_mul (by omega)]
+        rw [Nat.pow_succ] at h; omega
+      have := ih (n / 16) this
+      simp; omega
+
+theorem readNumber_hex (g : Nat) (hg : g < 65536) (rest : List UInt8)
+    (hrest : ∀ c t, rest = c :: t → toDigit 16 c = none) :
+    readNumber 16 4 65535 true (hexText g ++ rest) = some (g, rest) := by
+  obtain ⟨vs, h1, h2, h3⟩ := spanDigits16_append (hexText g) rest (hexText_digits g) hrest
+  have hlen := hexText_length g 3 (by simpa using hg)
+  have hne : (hexText g).length ≠ 0 := by
+    intro h; exact hexText_ne_nil g (List.length_eq_zero_iff.mp h)
+  unfold readNumber
+  rw [h1]
+  have e1 : (vs.length == 0) = false := by simp [h2, hexText_ne_nil]
+  have e2 : ¬ vs.length > 4 := by omega
+  have hv : vs.foldl (fun a d => a * 16 + d) 0 = g := by rw [h3, hexText_fold]; simp
+  have e4 : ¬ g > 65535 := by omega
+  simp only [e1, Bool.false_eq_true, ↓reduceIte, e2, Bool.not_true, Bool.false_and, hv, e4]
+
+/-- after the decimal digits at the start of a hexadecimal group comes a letter or the colon -/
+theorem spanDigits10_rest (H rest : List UInt8) (hH : ∀ c ∈ H, c ≠ 46) :
+    ∃ ds r, spanDigits 10 (H ++ 58 :: rest) = (ds, r) ∧ ∃ c t, r = c :: t ∧ c ≠ 46 := by
+  induction H with
+  | nil => exact ⟨[], _, by simp [spanDigits, toDigit16_ne_colon.2], 58, rest, rfl, by decide⟩
+  | cons c H ih =>
+    obtain ⟨ds, r, h1, c', t, h2, h3⟩ := ih (fun x hx => hH x (by simp [hx]))
+    cases hd : toDigit 10 c with
+    | some d => exact ⟨d :: ds, r, by simp [spanDigits, hd, h1], c', t, h2, h3⟩
+    | none => exact ⟨[], c :: (H ++ 58 :: rest), by simp [spanDigits, hd], c, _, rfl, hH c (by simp)⟩
+
+theorem readIpv4_hexgroup (g : Nat) (rest : List UInt8) : readIpv4 (hexText g ++ 58 :: rest) = none := by
+  obtain ⟨ds, r, h1, c, t, h2, h3⟩ := spanDigits10_rest (hexText g) rest (by
+    intro c hc
+    obtain ⟨d, hd, rfl⟩ := hexText_digits g c hc
+    exact (hexDigit_facts d hd).2.2.1)
+  unfold readIpv4
+  simp only [readSep, Nat.lt_irrefl, ↓reduceIte]
+  cases hn : readNumber 10 3 255 false (hexText g ++ 58 :: rest) with
+  | none => rfl
+  | some ar =>
+    obtain ⟨a, s1⟩ := ar
+    have hs1 : s1 = r := by
+      unfold readNumber at hn
+      rw [h1] at hn
+      simp only at hn
+      split at hn
+      · cases hn
+      · split at hn
+        · cases hn
+        · split at hn
+          · cases hn
+          · split at hn
+            · cases hn
+            · simp only [Option.some.injEq, Prod.mk.injEq] at hn; exact hn.2.symm
+    subst hs1
+    have hc : (c == 46) = false := by simpa using h3
+    simp [h2, readChar, hc]
+
+
+theorem readGroups_step (n i : Nat) (s : List UInt8) (g : Nat) (rest : List UInt8)
+    (hv4 : (if i + 1 < 8 then readSep 58 i readIpv4 s else none) = none)
+    (hn : readSep 58 i (readNumber 16 4 65535 true) s = some (g, rest)) :
+    readGroups 8 (n + 1) i s =
+      (g :: (readGroups 8 n (i + 1) rest).1, (readGroups 8 n (i + 1) rest).2.1, (readGroups 8 n (i + 1) rest).2.2) := by
+  rw [readGroups]
+  simp only [hv4, hn]
+
+theorem readGroups_render (gs : List Nat) (hgs : ∀ g ∈ gs, g < 65536) (i : Nat) (hi : i + gs.length = 8)
+    (hne : gs ≠ []) :
+    readGroups 8 gs.length i ((if i > 0 then [58] else []) ++ groupsText gs) = (gs, false, []) := by
+  induction gs generalizing i with
+  | nil => exact absurd rfl hne
+  | cons g gs ih =>
+    have hg := hgs g (by simp)
+    have hnil : ∀ c t, ([] : List UInt8) = c :: t → toDigit 16 c = none := by intro c t h; cases h
+    have hcol : ∀ (X : List UInt8) c t, (58 : UInt8) :: X = c :: t → toDigit 16 c = none := by
+      intro X c t h; cases h; exact toDigit16_ne_colon.1
+    cases gs with
+    | nil =>
+      have hi7 : i = 7 := by simp at hi; omega
+      subst hi7
+      have hnum := readNumber_hex g hg [] hnil
+      simp only [List.append_nil] at hnum
+      rw [show ([g] : List Nat).length = 0 + 1 from rfl,
+        readGroups_step 0 7 _ g [] (by simp) (by simp [readSep, readChar, groupsText, hnum])]
+      simp [readGroups]
+    | cons g2 gs' =>
+      have hlt : i + 1 < 8 := by simp at hi; omega
+      have ih' := ih (fun x hx => hgs x (by simp [hx])) (i + 1) (by simp at hi ⊢; omega) (by simp)
+      simp only [Nat.succ_pos, ↓reduceIte, List.singleton_append] at ih'
+      have hstep : readGroups 8 ((g2 :: gs').length + 1) i ((if i > 0 then [58] else []) ++ groupsText (g :: g2 :: gs')) =
+          (g :: (readGroups 8 (g2 :: gs').length (i + 1) (58 :: groupsText (g2 :: gs'))).1,
+            (readGroups 8 (g2 :: gs').length (i + 1) (58 :: groupsText (g2 :: gs'))).2.1,
+            (readGroups 8 (g2 :: gs').length (i + 1) (58 :: groupsText (g2 :: gs'))).2.2) := by
+        apply readGroups_step
+        · by_cases h0 : i > 0
+          · simp [h0, hlt, readSep, readChar, groupsText, readIpv4_hexgroup]
+          · have hi0 : i = 0 := by omega
+            subst hi0
+            simp [readSep, groupsText, readIpv4_hexgroup]
+        · by_cases h0 : i > 0
+          · simp [h0, readSep, readChar, groupsText, readNumber_hex g hg _ (hcol _)]
+          · have hi0 : i = 0 := by omega
+            subst hi0
+            simp [readSep, groupsText, readNumber_hex g hg _ (hcol _)]
+      rw [show (g :: g2 :: gs').length = (g2 :: gs').length + 1 from rfl, hstep, ih']
+
+theorem parseIpv6_render (gs : List Nat) (hlen : gs.length = 8) (hgs : ∀ g ∈ gs, g < 65536) :
+    parseIpv6 (groupsText gs) = some (gs.flatMap u16be') := by
+  have h := readGroups_render gs hgs 0 (by omega) (by intro h; simp [h] at hlen)
+  simp only [Nat.lt_irrefl, ↓reduceIte, List.nil_append, hlen] at h
+  unfold parseIpv6
+  simp [h, hlen]
+
 end QV.ZF
